@@ -10,3 +10,10 @@ import "sync/atomic"
 func VerifC15State(r *Runtime) (flag uint32, jobs int, callDepth int, tryDepth int) {
 	return atomic.LoadUint32(&r.vm.interrupted), len(r.jobQueue), len(r.vm.callStack), len(r.vm.tryStack)
 }
+
+// VerifC15AsyncIdle reports whether the VM holds no reference to an async runner (vm.curAsyncRunner == nil), which
+// must be the case whenever control is outside the runtime: a leftover runner makes captureStack append the frames
+// of the awaiting async functions of an aborted run to every later stack trace.
+func VerifC15AsyncIdle(r *Runtime) bool {
+	return r.vm.curAsyncRunner == nil
+}
